@@ -66,23 +66,24 @@ type Frame struct {
 	entry    *State
 	params   map[string]Val // spec-visible bindings (params, receiver)
 
-	order    []*ssa.BasicBlock
-	rpoIndex map[*ssa.BasicBlock]int
-	outs     map[*ssa.BasicBlock][]edge
-	loops    map[*ssa.BasicBlock]*loopInfo
-	loopOrd  map[*ssa.BasicBlock]int
-	callOrd  map[ssa.Instruction]int
-	callName map[ssa.Instruction]string
-	sendOrd  map[ssa.Instruction]int
-	recvOrd  map[ssa.Instruction]int
-	mupOrd   map[ssa.Instruction]int
-	retOrd   map[ssa.Instruction]int
-	curBlock *ssa.BasicBlock
-	curInstr ssa.Instruction
-	dryBacks []edge
-	dryStart *ssa.BasicBlock
-	dryStack []*dryCtx
-	depth    int
+	order       []*ssa.BasicBlock
+	rpoIndex    map[*ssa.BasicBlock]int
+	outs        map[*ssa.BasicBlock][]edge
+	loops       map[*ssa.BasicBlock]*loopInfo
+	loopOrd     map[*ssa.BasicBlock]int
+	loopKindOrd map[*ssa.BasicBlock]string
+	callOrd     map[ssa.Instruction]int
+	callName    map[ssa.Instruction]string
+	sendOrd     map[ssa.Instruction]int
+	recvOrd     map[ssa.Instruction]int
+	mupOrd      map[ssa.Instruction]int
+	retOrd      map[ssa.Instruction]int
+	curBlock    *ssa.BasicBlock
+	curInstr    ssa.Instruction
+	dryBacks    []edge
+	dryStart    *ssa.BasicBlock
+	dryStack    []*dryCtx
+	depth       int
 }
 
 func (ex *Exec) newFrame(fn *ssa.Function, parent *Frame) *Frame {
@@ -136,8 +137,23 @@ func (fr *Frame) computeOrder() {
 	}
 	sort.Slice(headers, func(i, j int) bool { return fr.blockPos(headers[i]) < fr.blockPos(headers[j]) })
 	fr.loopOrd = map[*ssa.BasicBlock]int{}
+	fr.loopKindOrd = map[*ssa.BasicBlock]string{}
+	kcnt := map[string]int{}
 	for i, h := range headers {
 		fr.loopOrd[h] = i
+		// kind of loop: range over a slice / array / string (hidden index), range over a map or channel (iterator), or
+		// a plain for loop; "map 0" etc. keys a loop independently of the order of loops of other kinds
+		kind := "for"
+		for _, in := range h.Instrs {
+			if phi, ok := in.(*ssa.Phi); ok && phi.Comment == "rangeindex" {
+				kind = "slice"
+			}
+			if _, ok := in.(*ssa.Next); ok {
+				kind = "map"
+			}
+		}
+		fr.loopKindOrd[h] = fmt.Sprintf("%s %d", kind, kcnt[kind])
+		kcnt[kind]++
 	}
 	// call / send / return ordinals by source position
 	type site struct {
@@ -416,6 +432,13 @@ func (fr *Frame) cutLoop(h *ssa.BasicBlock, phis []*ssa.Phi, reach T, st *State)
 	li := &loopInfo{ord: ord, phis: phis, body: fr.loopBody(h)}
 	if fc := fr.contractForLoops(); fc != nil {
 		li.spec = fc.Loops[ord]
+		if ks := fc.KindLoops[fr.loopKindOrd[h]]; ks != nil {
+			if li.spec == nil {
+				li.spec = ks
+			} else {
+				li.spec = &LoopSpec{Invariants: append(append([]*Clause{}, li.spec.Invariants...), ks.Invariants...)}
+			}
+		}
 	}
 	where := ex.pos(token0(h))
 	// 1. dry run to find the components assigned in the loop
